@@ -315,6 +315,32 @@ class UpgradeExperiment:
                           % (ok, w.upgrade_write_opens, d2.mutations() - m0))
         run.stats["upgrade:noop_reruns"] += 1
 
+        # ---- a second task list collected before the first one ran (file submitted twice): every step
+        #      re-checks its precondition, so processing the stale list afterwards changes nothing
+        w.fs.restore(path, old_bytes)
+        t1, _, _ = upgrade.collect_tasks(path)
+        t2, _, _ = upgrade.collect_tasks(path)
+        upgrade.process_tasks(path, t1, quiet=True)
+        with W.raw_h5(w.fs[path], "r") as hf:
+            id1 = hf.attrs.get("id")
+        f1 = nixio.File.open(path, nixio.FileMode.ReadOnly)
+        wk1 = upgrade_walk(f1)
+        f1.close()
+        r = run.call(lambda: upgrade.process_tasks(path, t2, quiet=True))
+        if r[0] == "exc":
+            run.violation("upgrade_idempotent", site, "stale_task_list_raises:" + type(r[1]).__name__, str(r[1])[:200])
+        with W.raw_h5(w.fs[path], "r") as hf:
+            id2 = hf.attrs.get("id")
+        f2 = nixio.File.open(path, nixio.FileMode.ReadOnly)
+        wk2 = upgrade_walk(f2)
+        f2.close()
+        if id1 != id2:
+            run.violation("upgrade_idempotent", site, "stale_task_list_changed_file_id", "%r -> %r" % (id1, id2))
+        d = K.deep_diff(wk2, wk1)
+        if d is not None:
+            run.violation("upgrade_idempotent", site, "stale_task_list_changed_content:" + K.diff_class(d), "%s: %s / %s" % d)
+        run.stats["upgrade:stale_task_lists"] += 1
+
         # ---- every interruption point
         ks = list(range(1, n_opens + 1))
         for k in ks:
